@@ -5,7 +5,41 @@ a Bits output (struct -> Bits), passed through to a struct output, and read leaf
 sub-component.  Only shapes that the Yosys backend's known struct defects (F13 F14 F18) do not touch."""
 
 
+def gen_const(c, uid):
+  """a struct OutPort tied to a CONSTANT struct whose fields include 1-D and 2-D packed arrays (rows differ)
+  and an array of structs: the literal the backend emits must put every element at its own offset"""
+  r0, r1 = c.choice([2, 3]), c.choice([2, 3, 4])
+  w = c.choice([3, 4, 5])
+  L = ["from pymtl3 import *", "",
+       "Pt_%s = mk_bitstruct('Pt_%s', {'x': Bits3, 'y': Bits5})" % (uid, uid),
+       "Cfg_%s = mk_bitstruct('Cfg_%s', {'k': Bits4, 'vec': [Bits%d]*%d, 'tab': [[Bits%d]*%d]*%d, 'pts': [Pt_%s]*2, 'z': Bits2})"
+       % (uid, uid, w, r1, w, r1, r0, uid)]
+  vec = [c.randrange(1 << w) for _ in range(r1)]
+  tab = [[c.randrange(1 << w) for _ in range(r1)] for _ in range(r0)]
+  if len({tuple(r) for r in tab}) == 1:
+    tab[0][0] ^= 1
+  pts = [(c.randrange(8), c.randrange(32)) for _ in range(2)]
+  lit = "Cfg_%s(%d, [%s], [%s], [%s], %d)" % (
+    uid, c.randrange(16), ", ".join("Bits%d(%d)" % (w, v) for v in vec),
+    ", ".join("[%s]" % ", ".join("Bits%d(%d)" % (w, v) for v in row) for row in tab),
+    ", ".join("Pt_%s(%d, %d)" % (uid, x, y) for x, y in pts), c.randrange(4))
+  if c.random() < 0.5:
+    L += ["", "class Top_%s(Component):" % uid, "  def construct(s):", "    s.in_ = InPort(Bits8)", "    s.o8 = OutPort(Bits8)",
+          "    s.out = OutPort(Cfg_%s)" % uid, "    s.o8 //= s.in_", "    s.out //= %s" % lit]
+  else:
+    # the constant goes to a WIRE that is observed whole (struct -> Bits)
+    tw = 4 + w * r1 * (1 + r0) + 16 + 2
+    L += ["", "class Top_%s(Component):" % uid, "  def construct(s):", "    s.in_ = InPort(Bits8)", "    s.o8 = OutPort(Bits8)",
+          "    s.cw = Wire(Cfg_%s)" % uid, "    s.pk_all = OutPort(mk_bits(%d))" % tw,
+          "    s.o8 //= s.in_", "    s.cw //= %s" % lit,
+          "    @update", "    def up_obs():", "      s.pk_all @= s.cw"]
+    # (reading s.cw.tab[i][j] in a block as well would run into known finding F14 in the Yosys backend)
+  return "\n".join(L) + "\n", {"depth": 2, "width": 4 + w * r1 * (1 + r0) + 16 + 2, "leaves": 0, "const_struct": 1}
+
+
 def gen(c, uid):
+  if c.random() < 0.2:
+    return gen_const(c, uid)
   L = ["from pymtl3 import *", ""]
   structs = []        # (name, width, leaves [(path string, width)])
   pool = ["src", "dst", "opq", "a", "zz", "m", "b0", "b", "f1", "f10", "hdr", "pay", "tl", "k"]
